@@ -111,4 +111,19 @@ def cases4() -> List[Dict[str, Any]]:
         "@deprecated(*ARGS)\ndef old(): 'doc'\n@deprecated(**KW)\nclass Old: pass\n@deprecated(Version(*ARGS))\ndef older(): pass\n")}))
     A(case("file-names-that-are-not-utf8", {"pk/q\udcff.py": "def f():\n    'doc'\nclass K:\n    'doc'\n", "pk/sub\udcfe/__init__.py": "x = 1\n",
                                              "pk/sub\udcfe/m.py": "from .. import *\nclass M: pass\n", "pk/__init__.py": "'doc'\n"}))
+    # ---- leads of the round-11 seeding agents: section headings whose anchors have to be told apart
+    long1 = "Converting the legacy configuration files of the previous major version to the new format, on the command line"
+    long2 = "Converting the legacy configuration files of the previous major version to the new format, from Python code"
+    heads = [long1, long2, long1, "Usage", "Usage", "Usage", "Usage-1", "Usage 1", "1", "\u4f7f\u3044\u65b9", "\u4f7f\u3044\u65b9", "---", "W" * 600, "W" * 600 + " again", ("word " * 80).strip(), ("word " * 80) + "more"]
+
+    groups = [[long1, long2, long1], ["Usage", "Usage", "Usage", "Usage-1", "Usage 1"], ["1", "1"], ["\u4f7f\u3044\u65b9", "\u4f7f\u3044\u65b9", "\u4f7f\u3044\u65b9-1"],
+              ["W" * 600, "W" * 600 + " again", "W" * 600], [("word " * 80).strip(), ("word " * 80) + "more"], heads]
+
+    def sections(hs: List[str], under: str) -> str:
+        return "Intro.\n\n" + "".join(f"{h}\n{under * max(len(h), 3)}\n\nText about it.\n\n" for h in hs)
+
+    def module(fmt: str, u1: str, u2: str) -> str:
+        return f"__docformat__ = '{fmt}'\n" + "".join(f"def f{k}():\n" + _doc(sections(g, u1)) + f"def g{k}():\n" + _doc(sections(g, u2)) for k, g in enumerate(groups))
+    A(case("section-headings-that-repeat", {"pk/e.py": module("epytext", "=", "-"), "pk/r.py": module("restructuredtext", "=", "~"),
+                                            "pk/n.py": "__docformat__ = 'numpy'\ndef f():\n" + _doc("Summary.\n\nNotes\n-----\nx\n\nNotes\n-----\ny\n\n" + long1 + "\n" + "-" * len(long1) + "\nz\n")}))
     return out
